@@ -544,13 +544,10 @@ func freshSlice(v ssa.Value, depth int) (bool, string) {
 // astWriteTable: the confirmed sites where an existing AST node (client operation or
 // schema definition) is modified in place.
 var astWriteTable = map[string]tabEntry{
-	"planner.sanitizeSelectionSet/Field.SelectionSet":                     {1, "sanitising phase: helper id/__typename are injected into the client's field in place (this is why the cache key is computed before planning, R10a)"},
-	"planner.sanitizeUnionInlineFragment/InlineFragment.SelectionSet":     {3, "sanitising phase: the fragment's selection is rebuilt in place"},
-	"planner.sanitizeInterfaceInlineFragment/InlineFragment.SelectionSet": {1, "sanitising phase: the fragment's selection is replaced in place"},
-	"introspection.introspectRemoteSchema/Definition.Types":               {2, "start-up: union members are filled into definitions the function created itself earlier in the same call (looked up again from the schema map)"},
-	"introspection.introspectRemoteSchema/Definition.Interfaces":          {1, "start-up: interfaces are filled into definitions the function created itself"},
-	"merger.(ExtendMergerFunc).Merge/Definition.Types":                    {1, "start-up: union members restored from possible types before the merged schema is printed"},
-	"merger.(SanitizeNodeMergerFunc).Merge/Definition.Fields":             {1, "start-up: the node field is removed from the merged Query type"},
+	"introspection.introspectRemoteSchema/Definition.Types":      {2, "start-up: union members are filled into definitions the function created itself earlier in the same call (looked up again from the schema map)"},
+	"introspection.introspectRemoteSchema/Definition.Interfaces": {1, "start-up: interfaces are filled into definitions the function created itself"},
+	"merger.(ExtendMergerFunc).Merge/Definition.Types":           {1, "start-up: union members restored from possible types before the merged schema is printed"},
+	"merger.(SanitizeNodeMergerFunc).Merge/Definition.Fields":    {1, "start-up: the node field is removed from the merged Query type"},
 }
 
 func ruleASTWrites(r *Run) {
